@@ -161,6 +161,15 @@ def obligations(tier, seed):
                 or "scalar" in o.key or "expr/" in o.key]
         rest = [o for o in obs if o not in keep and "/plain" not in o.key]
         obs = keep + rnd.sample(rest, len(rest) // 3)
+    # the same with every base-table name double-quoted (case kept): unaliased quoted tables used as qualifiers
+    from lx.tree import PLACEHOLDER as _PH
+
+    for k, st in tpl:
+        if k in ("insert/single/plain", "insert/join_noalias/plain", "insert/comma/plain", "insert/schema/plain", "update/from", "merge/table",
+                 "insert/join_noalias/cte", "insert/single/where_in"):
+            sql = gen.Renderer().stmt(st)
+            q = {m.lower(): "dq" for m in _PH.findall(sql) if m.lower()[2] == "t"}
+            obs.append(StmtWF(k, st, 4, seed, quotes=q))
     obs += [ChainWF(n, s) for n, s in SHAPES.items()]
     obs += [RawWF(n, d, q) for n, (d, q) in RAW.items()]
     return obs
